@@ -24,10 +24,11 @@ func (Driver) Info() core.Info {
 		Rule: "case = (function.Spec, argument list): 0..3 positional parameters + optional variadic parameter, each with a generated type constraint (depth<=3, " +
 			"dynamic placeholders at any depth, top-level dynamic 15%) and a uniformly drawn combination of AllowNull/AllowUnknown/AllowDynamicType/AllowMarked; " +
 			"scripted Type callback (returns a generated type | returns the type of its first argument | errors | panics with 5 payload kinds); scripted Impl callback " +
-			"(returns a generated conforming or non-conforming value | returns its first argument | errors | panics | returns NilVal); optional RefineResult=NotNull that the Impl honours; " +
+			"(returns a generated conforming or non-conforming value | returns its first argument | errors | panics | returns NilVal); optional RefineResult (NotNull, or NotNull plus a number range / " +
+			"collection length range) that the Impl honours; 1 in 8 functions obtained through WithNewDescriptions; " +
 			"argument lists of length 0..6 mixing conforming, non-conforming, null, unknown (also refined), DynamicVal, null-of-dynamic and top-level / deeply marked values. " +
 			"Each case runs Call, ReturnTypeForValues, ReturnType and Unpredictable(f).Call with spies in both callbacks. Plus a fixed corpus and two seed-independent enumerations " +
-			"(one focus parameter: 4 spec shapes x 3 constraints x 16 flag combinations x 17 argument classes x 7 callback scripts; two neighbouring parameters: 16x16 flag combinations x 8x8 argument classes x 2 scripts). " +
+			"(one focus parameter: 4 spec shapes x 3 constraints x 16 flag combinations x 17 argument classes x 9 callback scripts; two neighbouring parameters: 16x16 flag combinations x 8x8 argument classes x 2 scripts). " +
 			"distinct = hash of (spec, arguments); non-trivial = argument count accepted and at least one argument, so that parameter contracts are in play",
 		Assumptions: []string{
 			"the protocol model (model/c10_protocol.go) is Appendix B of DESIGN.md: a set of acceptable outcomes; which of several offending arguments is named, and whether an offending argument or a not-allowed dynamic argument wins, is left free",
@@ -35,7 +36,7 @@ func (Driver) Info() core.Info {
 			"specs declare RefineResult only when the Impl callback honours it (an inconsistent refinement is documented to panic)",
 			"value identity is judged by RawEquals or, failing that, by documented equality plus equal mark sets",
 		},
-		MinNontrivial: 5000,
+		MinNontrivial: 20000,
 	}
 }
 
@@ -192,6 +193,15 @@ func genScript(r *core.Rand) *script {
 	s.implMode = r.Weighted([]int{55, 15, 10, 12, 8})
 	s.refine = r.Chance(35, 100)
 	s.panicKind = r.Intn(nPanicKinds)
+	s.viaDesc = r.Chance(1, 8)
+	if s.refine && r.Chance(1, 2) {
+		// also declare a range refinement; mostly steer the return type to one that has ranges
+		s.refineExtra = true
+		if r.Chance(3, 4) {
+			s.retType = []cty.Type{cty.Number, cty.Number, cty.List(cty.String), cty.Map(cty.Number), cty.List(cty.DynamicPseudoType),
+				cty.List(cty.List(cty.Bool))}[r.Intn(6)]
+		}
+	}
 	// scripted Impl value
 	vo := gen.ValueOpts{UnknownPct: 10, NullPct: 8, Refined: true, MaxLen: 3, SmallNums: true, NoTopNull: s.refine}
 	if r.Chance(3, 4) {
@@ -237,7 +247,7 @@ func genArgs(r *core.Rand, s *script) ([]cty.Value, []string) {
 }
 
 func (Driver) Run(c *core.Ctx) {
-	n := int64(c.N(1500, 8000))
+	n := int64(c.N(6000, 40000))
 	for i := int64(0); i < n; i++ {
 		if !c.Want(i) {
 			continue
